@@ -12,8 +12,17 @@ for d in seeded/*${pat}*/; do
   wt=/tmp/comasim-seeded-$id
   git -C /repo worktree remove --force "$wt" >/dev/null 2>&1
   git -C /repo worktree add -q --detach "$wt" HEAD || { echo "$id worktree-failed" >> $res; continue; }
-  if ! git -C "$wt" apply "$(pwd)/$d/patch.diff" 2>/dev/null; then echo "$id patch-does-not-apply" >> $res; git -C /repo worktree remove --force "$wt"; continue; fi
-  line="$id"
+  if ! git -C "$wt" apply "$(pwd)/$d/patch.diff" 2>/dev/null; then
+    # written against an earlier commit of /repo (before a later fix: touched the same lines): use that commit as the base
+    base=$(/venv/bin/python -c "import json,re; m=json.load(open('$d/meta.json')); print(re.findall(r'[0-9a-f]{7,}', m['confirmed']['applies_to'])[0])")
+    git -C /repo worktree remove --force "$wt" >/dev/null 2>&1
+    git -C /repo worktree add -q --detach "$wt" "$base" || { echo "$id worktree-failed" >> $res; continue; }
+    if ! git -C "$wt" apply "$(pwd)/$d/patch.diff" 2>/dev/null; then echo "$id patch-does-not-apply" >> $res; git -C /repo worktree remove --force "$wt"; continue; fi
+    id_note="(base $base)"
+  else
+    id_note=""
+  fi
+  line="$id$id_note"
   for p in $prop $extra; do
     COMA_REPO=$wt COMASIM_EARLY_STOP=1 COMASIM_MINIMISE=0 ./check $p --tier quick --wall $wall > /tmp/comasim-seeded-$id.$p.out 2>&1
     line="$line $p=$?"
@@ -24,5 +33,5 @@ for d in seeded/*${pat}*/; do
 done
 git -C /repo worktree prune
 find replays -name '*.json' -delete 2>/dev/null
-mv $res selftest/seeded.results
+if [ -z "$pat" ]; then mv $res selftest/seeded.results; else grep -v "^[^ ]*$pat" selftest/seeded.results > $res.keep; cat $res.keep $res | sort > selftest/seeded.results; rm -f $res $res.keep; fi
 cat selftest/seeded.results
